@@ -389,6 +389,9 @@ struct PriorSpec
   bool kappa = false;
   float rdp_gamma = 2, rdp_eps = 0.1F;
   uint64_t kseed = 0;
+  // exact zeros in the kappa image (round 4): 0 none; 1 in every voxel that no bin sees (zero column of P, e.g. the corners outside the
+  // cylindrical FOV) -- what the usual recipe kappa = sqrt(-approximate Hessian x 1) produces; 2 those and about a fifth of the others
+  int kzero = 0;
   // quadratic prior that reports parabolic_surrogate_curvature_depends_on_argument() == true (QuadraticPriorRecompute)
   bool recompute = false;
 };
@@ -407,6 +410,35 @@ public:
   bool parabolic_surrogate_curvature_depends_on_argument() const override { return true; }
 };
 
+
+//! the INPUT kappa image of a prior specification (used by make_prior and, with the same values, by the harness's own reference)
+inline shared_ptr<target_type>
+make_kappa_image(const Fixture& F, const PriorSpec& s)
+{
+  shared_ptr<target_type> kappa(F.image->get_empty_copy());
+  vg::fill_random(*kappa, s.kseed, 0.5, 2.);
+  if (s.kzero != 0)
+    {
+      std::vector<char> seen(std::size_t(F.P.nvox()), 0);
+      for (auto& row : F.P.rows)
+        for (auto& e : row)
+          if (e.second != 0.)
+            seen[std::size_t(e.first)] = 1;
+      uint64_t h = s.kseed * 0x9E3779B97F4A7C15ULL + 12345;
+      for (int z = F.P.imin[1]; z <= F.P.imax[1]; ++z)
+        for (int y = F.P.imin[2]; y <= F.P.imax[2]; ++y)
+          for (int x = F.P.imin[3]; x <= F.P.imax[3]; ++x)
+            {
+              h ^= h << 13;
+              h ^= h >> 7;
+              h ^= h << 17;
+              if (!seen[std::size_t(F.P.vox_index(z, y, x))] || (s.kzero == 2 && h % 5 == 0))
+                (*kappa)[z][y][x] = 0.F;
+            }
+    }
+  return kappa;
+}
+
 inline shared_ptr<GeneralisedPrior<target_type>>
 make_prior(const Fixture& F, const PriorSpec& s)
 {
@@ -415,10 +447,7 @@ make_prior(const Fixture& F, const PriorSpec& s)
     return res;
   shared_ptr<target_type> kappa;
   if (s.kappa)
-    {
-      kappa.reset(F.image->get_empty_copy());
-      vg::fill_random(*kappa, s.kseed, 0.5, 2.);
-    }
+    kappa = make_kappa_image(F, s);
   if (s.kind == 1)
     {
       shared_ptr<QuadraticPrior<float>> p(s.recompute ? new QuadraticPriorRecompute(false, s.beta) : new QuadraticPrior<float>(false, s.beta));
@@ -508,8 +537,7 @@ make_own_prior(const Fixture& F, const PriorSpec& s)
   if (s.kappa)
     {
       // the INPUT kappa image of the case (same seed as make_prior), as the float values the prior object sees
-      shared_ptr<target_type> kappa(F.image->get_empty_copy());
-      vg::fill_random(*kappa, s.kseed, 0.5, 2.);
+      const shared_ptr<target_type> kappa = make_kappa_image(F, s);
       o.ref.kap = F.P.image_to_vec(*kappa);
     }
   return o;
